@@ -2,12 +2,13 @@
    ExtrOcamlBasic only: bool, option, list, prod, unit, sumbool are mapped to
    OCaml's own; nat, positive, N stay Coq inductives. No Extract Constant. *)
 From Coq Require Import Extraction ExtrOcamlBasic.
-From PegV Require Import Utf8 State Terminals TerminalsSpec Syntax Fields Literals Model Spec Hooks Pretty Extracted.
+From PegV Require Import Utf8 State Terminals TerminalsSpec Syntax Fields Literals Model Spec Hooks Pretty BuildScript Extracted.
 Extraction Language OCaml.
 
 Definition m_parse_std :=
   m_parse Hooks.ustate Extracted.scfg_run Extracted.tcfg_run Extracted.fcfg_run Extracted.rcfg_run Hooks.std_hooks.
 Definition s_parse_std := s_parse Extracted.fcfg_run Hooks.std_shooks.
+Definition bs_run := BuildScript.run.
 Definition get_fields_std := get_fields Extracted.fcfg_run.
 Definition pretty_exec := Pretty.from_parse_error Extracted.pretty_run.
 
@@ -19,4 +20,5 @@ Extraction "model.ml"
   Terminals.parse_character_literal Terminals.parse_character_range
   Terminals.parse_string_literal_insensitive Terminals.parse_character_literal_insensitive
   Terminals.parse_end_of_input State.init_state
+  bs_run
   Extracted.scfg_run Extracted.tcfg_run Extracted.fcfg_run Extracted.rcfg_run.
